@@ -278,6 +278,37 @@ int main()
         cv->wrap(x);
         o << vs_hex(x) << "\n";
       }
+    } else if (cmd == "SUM") {
+      // a variable that is a sum of n components given in CONFIG order: SUM n (keyword period coeff exp wrapAround)*n x1 x2 xw
+      // -> colvar::init's decision (f_cv_periodic, period, wrap_center) and dist2 / lgrad / rgrad (x1,x2), wrap(xw)
+      int n = ni();
+      std::string conf, key = "sum";
+      std::string const dih = "    group1 { atomNumbers 1 }\n    group2 { atomNumbers 2 }\n    group3 { atomNumbers 3 }\n    group4 { atomNumbers 4 }\n";
+      std::string const ref4b = "    atoms { atomNumbers 1 2 3 4 }\n    refPositions (1, 0, 0) (0, 1, 0) (0, 0, 1) (-1, -1, -1)\n";
+      for (int i = 0; i < n; i++) {
+        std::string kw = a[p++]; double P = nf(), co = nf(); int ex = ni(); double wc = nf();
+        std::string body;
+        bool per_kw = (kw == "dihedral" || kw == "polarPhi" || kw == "spinAngle" || kw == "eulerPhi");
+        if (kw == "angle") body = "    group1 { atomNumbers 1 }\n    group2 { atomNumbers 2 }\n    group3 { atomNumbers 3 }\n";
+        else if (kw == "dihedral") body = dih;
+        else if (kw == "distance") body = "    group1 { atomNumbers 1 }\n    group2 { atomNumbers 2 }\n";
+        else if (kw == "distanceZ") body = "    main { atomNumbers 1 }\n    ref { dummyAtom (0,0,0) }\n    axis (0,0,1)\n";
+        else if (kw == "polarPhi") body = "    atoms { atomNumbers 1 }\n";
+        else body = ref4b;     // spinAngle, eulerPhi
+        char buf[512];
+        snprintf(buf, sizeof(buf), "    name k%d\n    componentCoeff %.17g\n    componentExp %d\n", i, co, ex);
+        body += buf;
+        if (kw == "distanceZ" && P != 0.0) { snprintf(buf, sizeof(buf), "    period %.17g\n", P); body += buf; }
+        if (per_kw || (kw == "distanceZ" && P != 0.0)) { snprintf(buf, sizeof(buf), "    wrapAround %.17g\n", wc); body += buf; }
+        conf += "  " + kw + " {\n" + body + "  }\n";
+      }
+      colvar *cv = get_cv("sum " + conf, conf);
+      if (!cv) { o << "noconfig\n"; continue; }
+      colvarvalue x1(nf()), x2(nf()), xw(nf());
+      bool per = cv->is_enabled(colvardeps::f_cv_periodic);
+      cv->wrap(xw);
+      o << H(per ? 1.0 : 0.0) << " " << H(per ? cv->period : 0.0) << " " << H(per ? cv->wrap_center : 0.0) << " "
+        << H(cv->dist2(x1, x2)) << " " << vs_hex(cv->dist2_lgrad(x1, x2)) << " " << vs_hex(cv->dist2_rgrad(x1, x2)) << " " << vs_hex(xw) << "\n";
     } else if (cmd == "MR") {
       // moving harmonic restraint on a periodic distanceZ: MR P c x0 x1 lambda...  -> the centre after update_centers(lambda), for each lambda
       double P = nf(), c = nf(), x0 = nf(), x1 = nf();
